@@ -170,6 +170,7 @@ Qed.
 
 (* ------------------------------------------------------------------ visibility at the end of a run *)
 Definition quiet (q : req) : bool := match r_kind q with KCompute | KOptimize => true | _ => false end.
+Definition no_ops (r : req) : bool := match req_ops r with [] => true | _ => false end.
 
 Lemma eff_ops_cases : forall sk r, eff_ops sk r = req_ops r \/ eff_ops sk r = [].
 Proof.
@@ -227,14 +228,14 @@ Proof.
   apply existsb_exists in E. destruct E as [o [Ho Hr]]. rewrite (H o Ho) in Hr. discriminate.
 Qed.
 
-Theorem vis_final : forall sk (items : list item) (unsent : list req) d0 d',
+Theorem vis_final_gen : forall sk (items : list item) (unsent : list req) d0 d',
   sk_ok sk = true ->
   data_eq d' (apply_ops d0 (sel_ops sk items)) ->
   NoDup (map op_key (flat_map req_ops (map it_req items ++ unsent))) ->
   (forall o, In o (flat_map req_ops (map it_req items ++ unsent)) -> reflected d0 o = false) ->
-  (forall q, In q (map it_req items ++ unsent) -> req_shape q = true) ->
-  (forall x, In x items -> vis d' (it_req x) = if it_committed x || quiet (it_req x) then 1 else 0) /\
-  (forall q, In q unsent -> vis d' q = if quiet q then 1 else 0).
+  (forall q, In q (map it_req items ++ unsent) -> no_ops q = false -> quiet q = false) ->
+  (forall x, In x items -> vis d' (it_req x) = if it_committed x || no_ops (it_req x) then 1 else 0) /\
+  (forall q, In q unsent -> vis d' q = if no_ops q then 1 else 0).
 Proof.
   intros sk items unsent d0 d' Hok Hdata Hnd Hfresh Hshape.
   set (F := fun x : item => req_ops (it_req x)).
@@ -255,13 +256,13 @@ Proof.
     unfold F. destruct (eff_ops_cases sk (it_req y)) as [E|E]; rewrite E in Hoy; [exact Hoy|contradiction]. }
   split.
   - intros x Hx. rewrite (vis_data d' _ _ Hdata).
-    assert (Hsx : req_shape (it_req x) = true) by (apply Hshape; apply in_or_app; left; apply in_map; exact Hx).
-    destruct (quiet (it_req x)) eqn:Hq.
-    + rewrite orb_true_r. apply vis_all. rewrite (quiet_no_ops _ Hsx Hq). intros o [].
-    + rewrite orb_false_r. destruct (it_committed x) eqn:Hc.
+    destruct (no_ops (it_req x)) eqn:Hno.
+    + rewrite orb_true_r. apply vis_all. unfold no_ops in Hno. destruct (req_ops (it_req x)); [intros o []|discriminate].
+    + assert (Hq : quiet (it_req x) = false) by (apply Hshape; [apply in_or_app; left; apply in_map; exact Hx|exact Hno]).
+      rewrite orb_false_r. destruct (it_committed x) eqn:Hc.
       * apply vis_all. intros o Ho. apply reflected_apply_ops_in; [exact HndL|].
         rewrite HL. apply in_flat_map. exists x. split; [exact Hx|]. unfold G. rewrite Hc, (eff_ops_full sk _ Hok Hq). exact Ho.
-      * apply vis_none; [apply loud_has_ops; assumption|]. intros o Ho.
+      * apply vis_none; [unfold no_ops in Hno; destruct (req_ops (it_req x)); [discriminate|intros E; discriminate]|]. intros o Ho.
         rewrite reflected_apply_ops_notin.
         -- apply Hfresh. apply in_or_app. left. apply in_flat_map. exists x. split; assumption.
         -- intros Hk. apply in_map_iff in Hk. destruct Hk as [o' [Ek Ho']].
@@ -272,10 +273,9 @@ Proof.
            subst o'. destruct (NoDup_flat_map_same _ _ F items x y o HA Hx Hy Ho Hoy) as [E|[]].
            subst y. congruence.
   - intros q Hq. rewrite (vis_data d' _ _ Hdata).
-    assert (Hsq : req_shape q = true) by (apply Hshape; apply in_or_app; right; exact Hq).
-    destruct (quiet q) eqn:Hqq.
-    + apply vis_all. rewrite (quiet_no_ops _ Hsq Hqq). intros o [].
-    + apply vis_none; [apply loud_has_ops; assumption|]. intros o Ho.
+    destruct (no_ops q) eqn:Hno.
+    + apply vis_all. unfold no_ops in Hno. destruct (req_ops q); [intros o []|discriminate].
+    + apply vis_none; [unfold no_ops in Hno; destruct (req_ops q); [discriminate|intros E; discriminate]|]. intros o Ho.
       assert (HoU : In o U) by (apply in_flat_map; exists q; split; assumption).
       rewrite reflected_apply_ops_notin; [apply Hfresh; apply in_or_app; right; exact HoU|].
       intros Hk. apply in_map_iff in Hk. destruct Hk as [o' [Ek Ho']].
@@ -283,6 +283,27 @@ Proof.
       assert (Ho'A : In o' A) by (apply in_flat_map; exists y; split; assumption).
       assert (o' = o) by (eapply (NoDup_map_in_inj _ _ op_key (A ++ U)); [exact Hnd|apply in_or_app; left; exact Ho'A|apply in_or_app; right; exact HoU|exact Ek]).
       subst o'. exact (Hdisj o Ho'A HoU).
+Qed.
+
+Lemma shape_no_ops : forall q, req_shape q = true -> no_ops q = quiet q.
+Proof.
+  intros q H. unfold req_shape in H. unfold no_ops, quiet. destruct (r_kind q); destruct (req_ops q); try reflexivity; discriminate.
+Qed.
+Theorem vis_final : forall sk (items : list item) (unsent : list req) d0 d',
+  sk_ok sk = true ->
+  data_eq d' (apply_ops d0 (sel_ops sk items)) ->
+  NoDup (map op_key (flat_map req_ops (map it_req items ++ unsent))) ->
+  (forall o, In o (flat_map req_ops (map it_req items ++ unsent)) -> reflected d0 o = false) ->
+  (forall q, In q (map it_req items ++ unsent) -> req_shape q = true) ->
+  (forall x, In x items -> vis d' (it_req x) = if it_committed x || quiet (it_req x) then 1 else 0) /\
+  (forall q, In q unsent -> vis d' q = if quiet q then 1 else 0).
+Proof.
+  intros sk items unsent d0 d' Hok Hdata Hnd Hfresh Hshape.
+  destruct (vis_final_gen sk items unsent d0 d' Hok Hdata Hnd Hfresh) as [H1 H2].
+  { intros q Hq Hno. rewrite <- (shape_no_ops q (Hshape q Hq)). exact Hno. }
+  split.
+  - intros x Hx. rewrite (H1 x Hx). rewrite (shape_no_ops (it_req x)); [reflexivity|]. apply Hshape. apply in_or_app. left. apply in_map. exact Hx.
+  - intros q Hq. rewrite (H2 q Hq). rewrite (shape_no_ops q); [reflexivity|]. apply Hshape. apply in_or_app. right. exact Hq.
 Qed.
 
 (* ------------------------------------------------------------------ acknowledgements *)
@@ -443,11 +464,133 @@ Proof.
   - destruct (committed || qt); destruct alive; reflexivity.
 Qed.
 
+(* ------------------------------------------------------------------ sublists *)
+Inductive sublist {A} : list A -> list A -> Prop :=
+| sl_nil : forall l, sublist [] l
+| sl_skip : forall a l1 l2, sublist l1 l2 -> sublist l1 (a :: l2)
+| sl_keep : forall a l1 l2, sublist l1 l2 -> sublist (a :: l1) (a :: l2).
+Lemma sublist_refl : forall A (l : list A), sublist l l.
+Proof. induction l as [|a l IH]; [apply sl_nil|apply sl_keep; exact IH]. Qed.
+Lemma sublist_app_r : forall A (l l1 l2 : list A), sublist l l2 -> sublist l (l1 ++ l2).
+Proof. induction l1; intros; cbn [app]; [assumption|apply sl_skip; auto]. Qed.
+Lemma sublist_app : forall A (a a' b b' : list A), sublist a a' -> sublist b b' -> sublist (a ++ b) (a' ++ b').
+Proof. intros A a a' b b' H. induction H; intros Hb; cbn [app]; [apply sublist_app_r; exact Hb|apply sl_skip; auto|apply sl_keep; auto]. Qed.
+Lemma sublist_in : forall A (l1 l2 : list A) x, sublist l1 l2 -> In x l1 -> In x l2.
+Proof. intros A l1 l2 x H. induction H; intros Hi; cbn [In] in *; [contradiction|right; auto|destruct Hi; [left; assumption|right; auto]]. Qed.
+Lemma sublist_flat_map : forall A B (g : A -> list B) l1 l2, sublist l1 l2 -> sublist (flat_map g l1) (flat_map g l2).
+Proof. intros A B g l1 l2 H. induction H; cbn [flat_map]; [apply sl_nil|apply sublist_app_r; assumption|apply sublist_app; [apply sublist_refl|assumption]]. Qed.
+Lemma sublist_map : forall A B (f : A -> B) l1 l2, sublist l1 l2 -> sublist (map f l1) (map f l2).
+Proof. intros A B f l1 l2 H. induction H; cbn [map]; [apply sl_nil|apply sl_skip; auto|apply sl_keep; auto]. Qed.
+Lemma sublist_NoDup : forall A (l1 l2 : list A), sublist l1 l2 -> NoDup l2 -> NoDup l1.
+Proof.
+  intros A l1 l2 H. induction H; intros Hn; [constructor| |].
+  - inversion Hn; auto.
+  - inversion Hn as [|? ? Hx Hr]; subst. constructor; [|auto]. intros Hi. apply Hx. eapply sublist_in; eauto.
+Qed.
+
+(* ------------------------------------------------------------------ the start script *)
+Definition script_ok (sc : list sstep) : Prop := forall b, In (SAwait b) sc -> forall r, In r b -> req_ops r = [].
+Lemma eff_ops_none : forall sk b, (forall r, In r b -> req_ops r = []) -> flat_map (eff_ops sk) b = [].
+Proof.
+  intros sk b H. induction b as [|r b IH]; cbn [flat_map]; [reflexivity|].
+  rewrite IH by (intros r' Hr'; apply H; right; exact Hr').
+  destruct (eff_ops_cases sk r) as [E|E]; rewrite E; [rewrite (H r (or_introl eq_refl))|]; reflexivity.
+Qed.
+
+Theorem script_structure : forall sk sched sc n st lo started, script_ok sc ->
+  let r := run_script sk sched n st lo started sc in
+  sublist (map it_req (sr_items r)) (script_reqs sc) /\
+  data_eq (w_disk (sr_state r)) (apply_ops (w_disk st) (sel_ops sk (sr_items r))).
+Proof.
+  intros sk sched. induction sc as [|s sc IH]; intros n st lo started Hok; cbv zeta; cbn [run_script].
+  - cbn. split; [constructor|apply data_eq_refl].
+  - assert (Hok' : script_ok sc) by (intros b Hb; apply Hok; right; exact Hb).
+    destruct s as [b|b| |]; cbn [script_reqs flat_map].
+    + (* SAwait *)
+      pose proof (run_batch_atomic sk sched n st b) as Hat. cbv zeta in Hat.
+      destruct (run_batch sk sched n st b) as [[[st' o] n'] last]. cbn [fst snd] in Hat.
+      assert (Hnone : flat_map (eff_ops sk) b = []) by (apply eff_ops_none; apply (Hok b); left; reflexivity).
+      assert (Hd : data_eq (w_disk st') (w_disk st)).
+      { destruct o as [[|]|[|]]; cbn [batch_post] in Hat; try (rewrite Hat; apply data_eq_refl);
+          destruct Hat as [_ [Hx _]]; rewrite Hx; pose proof (txn_body_data sk b (w_disk st)) as T; rewrite Hnone in T; exact T. }
+      destruct o as [[|]|c]; cbn [sr_items sr_state map sel_ops flat_map apply_ops fold_left].
+      * specialize (IH n' st' true started Hok'). cbv zeta in IH. destruct IH as [I1 I2].
+        split; [apply sublist_app_r; exact I1|]. eapply data_eq_trans; [exact I2|]. apply data_eq_apply_ops. exact Hd.
+      * split; [constructor|exact Hd].
+      * split; [constructor|exact Hd].
+    + (* SFree *)
+      pose proof (run_batch_atomic sk sched n st b) as Hat. cbv zeta in Hat.
+      destruct (run_batch sk sched n st b) as [[[st' o] n'] last]. cbn [fst snd] in Hat.
+      destruct o as [ok|c].
+      * pose proof (ack_batch_items sk ok b true) as [Hi1 Hi2].
+        destruct (ack_batch sk ok true b) as [items au']. cbn [fst] in Hi1, Hi2.
+        specialize (IH n' st' ok started Hok'). cbv zeta in IH. destruct IH as [I1 I2].
+        cbn [sr_items sr_state]. split.
+        -- rewrite map_app, Hi1. apply sublist_app; [apply sublist_refl|exact I1].
+        -- rewrite sel_ops_app, apply_ops_app. eapply data_eq_trans; [exact I2|].
+           apply data_eq_apply_ops. rewrite (sel_ops_const sk items ok Hi2), Hi1.
+           destruct ok; cbn [batch_post] in Hat.
+           ++ destruct Hat as [_ [Hx _]]. rewrite Hx. apply txn_body_data.
+           ++ rewrite Hat. apply data_eq_refl.
+      * cbn [sr_items sr_state]. split.
+        -- rewrite items_dead_req. rewrite <- (app_nil_r b) at 1. apply sublist_app; [apply sublist_refl|apply sl_nil].
+        -- rewrite sel_ops_dead. destruct c; cbn [batch_post] in Hat.
+           ++ destruct Hat as [_ [Hx _]]. rewrite Hx. apply txn_body_data.
+           ++ rewrite Hat. apply data_eq_refl.
+    + destruct (sched (n + 1)%N); try (apply IH; exact Hok'). cbn. split; [constructor|apply data_eq_refl].
+    + destruct lo; [|apply IH; exact Hok'].
+      destruct (sched (n + 1)%N); try (apply IH; exact Hok'). cbn. split; [constructor|apply data_eq_refl].
+Qed.
+
+Theorem script_loginv : forall sk sched sc n st lo started,
+  (forall r, In r (script_reqs sc) -> Covers sk r) -> LogInv (w_disk st) ->
+  LogInv (w_disk (sr_state (run_script sk sched n st lo started sc))).
+Proof.
+  intros sk sched. induction sc as [|s sc IH]; intros n st lo started Hc Hinv; cbn [run_script]; [exact Hinv|].
+  destruct s as [b|b| |]; cbn [script_reqs flat_map] in Hc.
+  - pose proof (run_batch_loginv sk sched n st b (fun r Hr => Hc r (in_or_app _ _ _ (or_introl Hr))) Hinv) as Hb.
+    destruct (run_batch sk sched n st b) as [[[st' o] n'] last]. cbn [fst] in Hb.
+    destruct o as [[|]|c]; cbn [sr_state]; try exact Hb. apply IH; [|exact Hb]. intros r Hr. apply Hc. apply in_or_app. right. exact Hr.
+  - pose proof (run_batch_loginv sk sched n st b (fun r Hr => Hc r (in_or_app _ _ _ (or_introl Hr))) Hinv) as Hb.
+    destruct (run_batch sk sched n st b) as [[[st' o] n'] last]. cbn [fst] in Hb.
+    destruct o as [ok|c]; cbn [sr_state]; [|exact Hb].
+    destruct (ack_batch sk ok true b) as [items au']. cbn [sr_state].
+    apply IH; [|exact Hb]. intros r Hr. apply Hc. apply in_or_app. right. exact Hr.
+  - destruct (sched (n + 1)%N); try (apply IH; assumption). exact Hinv.
+  - destruct lo; [|apply IH; assumption]. destruct (sched (n + 1)%N); try (apply IH; assumption). exact Hinv.
+Qed.
+
+Lemma k2_anone : forall l seen, (forall r, In r l -> r_auth r = ANone) -> k2 seen l = false.
+Proof.
+  induction l as [|r l IH]; intros seen H; cbn [k2]; [reflexivity|].
+  assert (E : r_auth r = ANone) by (apply H; left; reflexivity).
+  unfold needs, revokes. rewrite E. rewrite andb_false_r, orb_false_r. cbn [orb]. apply IH. intros r' Hr'. apply H. right. exact Hr'.
+Qed.
+Theorem script_acks : forall sk sched sc n st lo started, sk_ok sk = true ->
+  (forall r, In r (script_reqs sc) -> r_auth r = ANone) ->
+  Forall ack_sound (sr_items (run_script sk sched n st lo started sc)).
+Proof.
+  intros sk sched. induction sc as [|s sc IH]; intros n st lo started Hok Ha; cbn [run_script]; [constructor|].
+  assert (Ha' : forall r, In r (script_reqs sc) -> r_auth r = ANone).
+  { intros r Hr. apply Ha. destruct s; cbn [script_reqs flat_map]; try (apply in_or_app; right); exact Hr. }
+  destruct s as [b|b| |].
+  - destruct (run_batch sk sched n st b) as [[[st' o] n'] last]. destruct o as [[|]|c]; cbn [sr_items]; try constructor. apply IH; assumption.
+  - destruct (run_batch sk sched n st b) as [[[st' o] n'] last]. destruct o as [ok|c].
+    + assert (Hk : k2 false (b ++ []) = false).
+      { apply k2_anone. intros r Hr. rewrite app_nil_r in Hr. apply Ha. cbn [script_reqs flat_map]. apply in_or_app. left. exact Hr. }
+      pose proof (ack_batch_sound sk ok b [] true false Hok Hk ltac:(discriminate)) as [H1 _].
+      destruct (ack_batch sk ok true b) as [items au']. cbn [fst sr_items] in *. apply Forall_app. split; [exact H1|apply IH; assumption].
+    + cbn [sr_items]. apply Forall_forall. intros x Hx. apply in_map_iff in Hx. destruct Hx as [q [E _]]. subst x.
+      unfold ack_sound, it_ack. cbn [fst snd]. split; [discriminate|split; [discriminate|intros H; contradiction]].
+  - destruct (sched (n + 1)%N); try (apply IH; assumption). constructor.
+  - destruct lo; [|apply IH; assumption]. destruct (sched (n + 1)%N); try (apply IH; assumption). constructor.
+Qed.
+
 (* ------------------------------------------------------------------ the property, outside the known class *)
-Theorem spec_outside_known : forall c,
+Lemma spec_run_case : forall init batches unsent f, let c := CRun init batches unsent f in
   wf_case c = true -> known_C13 c = [] -> spec_C13 c (run_C13 c) = true.
 Proof.
-  intros [|init batches unsent f] Hwf Hk; [reflexivity|].
+  intros init batches unsent f c Hwf Hk. subst c.
   cbn [wf_case] in Hwf.
   apply andb_true_iff in Hwf. destruct Hwf as [Hwf Hinv0].
   apply andb_true_iff in Hwf. destruct Hwf as [Hwf Hrej].
@@ -685,3 +828,134 @@ Definition nonvacuous_case : c13case :=
 Lemma nonvacuous : wf_case nonvacuous_case = true /\ known_C13 nonvacuous_case = [] /\
   run_C13 nonvacuous_case = [1; -1; 1;  0; -1; 1;  0; -1; 1;  0; -1; 1;  0; -1; 0;  0; 6; 1; 1; 1; 1; 1; 1].
 Proof. vm_compute. repeat split; reflexivity. Qed.
+
+(* ------------------------------------------------------------------ faults during start (CRestart) *)
+Lemma pairs_flat : forall A (fa fv : A -> Z) l rest,
+  pairs (length l) (flat_map (fun x => [fa x; fv x]) l ++ rest) = Some (map (fun x => (fa x, fv x)) l, rest).
+Proof.
+  induction l as [|x l IH]; intros rest; cbn [length flat_map app pairs map]; [reflexivity|]. rewrite IH. reflexivity.
+Qed.
+Lemma length_flat_pairs : forall A (fa fv : A -> Z) l, length (flat_map (fun x => [fa x; fv x]) l) = (2 * length l)%nat.
+Proof. induction l as [|x l IH]; cbn [flat_map length app]; [reflexivity|]. rewrite IH. lia. Qed.
+Lemma div2_double : forall n, Nat.div2 (2 * n) = n.
+Proof. induction n as [|n IH]; [reflexivity|]. replace (2 * S n)%nat with (S (S (2 * n))) by lia. cbn [Nat.div2]. rewrite IH. reflexivity. Qed.
+Lemma firstn_exact : forall A (l r : list A), firstn (length l) (l ++ r) = l.
+Proof. induction l; intros; cbn [length firstn app]; [reflexivity|]. rewrite IHl. reflexivity. Qed.
+Lemma skipn_exact : forall A (l r : list A), skipn (length l) (l ++ r) = r.
+Proof. induction l; intros; cbn [length skipn app]; [reflexivity|]. apply IHl. Qed.
+
+Lemma spec_restart_case : forall init batches script f, let c := CRestart init batches script f in
+  wf_case c = true -> spec_C13 c (run_C13 c) = true.
+Proof.
+  intros init batches script f c Hwf. subst c. cbn [wf_case] in Hwf.
+  apply andb_true_iff in Hwf. destruct Hwf as [Hwf Hinv0].
+  apply andb_true_iff in Hwf. destruct Hwf as [Hwf Hscshape].
+  apply andb_true_iff in Hwf. destruct Hwf as [Hwf Hanone].
+  apply andb_true_iff in Hwf. destruct Hwf as [Hwf Hawait].
+  apply andb_true_iff in Hwf. destruct Hwf as [Hwf Hk2].
+  apply andb_true_iff in Hwf. destruct Hwf as [Hwf Hshape].
+  apply andb_true_iff in Hwf. destruct Hwf as [Hwf Hcov].
+  apply andb_true_iff in Hwf. destruct Hwf as [Hnd Hfresh].
+  apply negb_true_iff in Hk2.
+  pose proof code_skeleton_ok as Hok.
+  set (sk := code_skeleton) in *. set (d0 := init_disk init) in *.
+  set (st0 := {| w_disk := d0; w_stuck := false |}).
+  rewrite forallb_forall in Hcov, Hshape, Hanone, Hscshape, Hfresh, Hawait.
+  assert (Hcov' : forall r, In r (concat batches ++ script_reqs script) -> Covers sk r) by (intros r Hr; apply covers_sound; apply Hcov; exact Hr).
+  (* phase A *)
+  pose proof (run_batches_structure sk all_go batches 0%N st0 true) as HA. cbv zeta in HA. destruct HA as [HreqA HdataA].
+  pose proof (run_batches_go_all sk batches 0%N st0 true eq_refl) as [HgoA _].
+  assert (HlogA : LogInv (w_disk (rr_state (run_batches sk all_go 0%N st0 true batches)))).
+  { apply run_batches_loginv; [|apply loginv_b_sound; exact Hinv0]. intros r Hr. apply Hcov'. apply in_or_app. left. exact Hr. }
+  unfold run_C13, run_model. change all_continue with all_go. fold sk. fold d0. fold st0.
+  set (ra := run_batches sk all_go 0%N st0 true batches) in *.
+  set (stA := {| w_disk := w_disk (rr_state ra); w_stuck := false |}).
+  (* phase B *)
+  assert (Hsok : script_ok script).
+  { intros b Hb r Hr. specialize (Hawait _ Hb). cbn in Hawait. rewrite forallb_forall in Hawait. specialize (Hawait r Hr).
+    destruct (req_ops r); [reflexivity|discriminate]. }
+  pose proof (script_structure sk (sched_of f) script 0%N stA true false Hsok) as HB. cbv zeta in HB. destruct HB as [HsubB HdataB].
+  assert (HlogB : LogInv (w_disk (sr_state (run_script sk (sched_of f) 0%N stA true false script)))).
+  { apply script_loginv; [|exact HlogA]. intros r Hr. apply Hcov'. apply in_or_app. right. exact Hr. }
+  assert (Hanone' : forall r, In r (script_reqs script) -> r_auth r = ANone).
+  { intros r Hr. specialize (Hanone r Hr). destruct (r_auth r); try discriminate; reflexivity. }
+  pose proof (script_acks sk (sched_of f) script 0%N stA true false Hok Hanone') as HacksB.
+  set (rb := run_script sk (sched_of f) 0%N stA true false script) in *.
+  cbn [w_disk stA] in HdataB, HdataA.
+  set (d' := w_disk (sr_state rb)) in *. set (dr := restart (sr_state rb)).
+  assert (Hdr : data_eq dr d') by (apply data_eq_recompute).
+  (* both phases as one list of items *)
+  set (items := rr_items ra ++ sr_items rb).
+  assert (Hdata : data_eq d' (apply_ops d0 (sel_ops sk items))).
+  { unfold items. rewrite sel_ops_app, apply_ops_app. eapply data_eq_trans; [exact HdataB|]. apply data_eq_apply_ops. exact HdataA. }
+  assert (Hsub : sublist (map it_req items) (concat batches ++ script_reqs script)).
+  { unfold items. rewrite map_app, HreqA. apply sublist_app; [apply sublist_refl|exact HsubB]. }
+  assert (Hsubops : sublist (flat_map req_ops (map it_req items ++ [])) (flat_map req_ops (concat batches ++ script_reqs script))).
+  { rewrite app_nil_r. apply sublist_flat_map. exact Hsub. }
+  destruct (vis_final_gen sk items [] d0 d' Hok Hdata) as [Hvis _].
+  { eapply sublist_NoDup; [apply sublist_map; exact Hsubops|]. apply nodup_keys_NoDup. exact Hnd. }
+  { intros o Ho. specialize (Hfresh o (sublist_in _ _ _ o Hsubops Ho)). apply negb_true_iff in Hfresh. exact Hfresh. }
+  { intros q Hq Hno. rewrite app_nil_r in Hq. pose proof (sublist_in _ _ _ q Hsub Hq) as Hin. apply in_app_or in Hin. destruct Hin as [Hin|Hin].
+    - rewrite <- (shape_no_ops q (Hshape q Hin)). exact Hno.
+    - specialize (Hscshape q Hin). unfold no_ops in Hno. destruct (req_ops q) eqn:E; [discriminate|].
+      assert (Hn2 : no_ops q = false) by (unfold no_ops; rewrite E; reflexivity). rewrite <- (shape_no_ops q Hscshape). exact Hn2. }
+  (* the workload's requests *)
+  assert (HvisA : forall q, In q (concat batches) -> vis dr q = 1).
+  { intros q Hq. rewrite (vis_data dr d' _ Hdr). rewrite <- HreqA in Hq. apply in_map_iff in Hq. destruct Hq as [x [E Hx]]. subst q.
+    rewrite (Hvis x (in_or_app _ _ _ (or_introl Hx))). rewrite Forall_forall in HgoA. rewrite (HgoA x Hx). reflexivity. }
+  cbn [spec_C13].
+  set (obsA := map (fun q => vis dr q) (concat batches)).
+  set (sent := filter (fun x => negb (match req_ops (it_req x) with [] => true | _ => false end)) (sr_items rb)).
+  set (flags := [zb (sr_alive rb); zn (if sr_alive rb then sr_hits rb else sr_last rb); zb (sr_started rb); zb (loginv_b d'); zb (consistent_b dr); 1; 1]).
+  assert (HlenA : length obsA = length (concat batches)) by apply map_length.
+  rewrite <- !app_assoc. rewrite <- HlenA. rewrite firstn_exact, skipn_exact.
+  apply andb_true_iff. split; [apply andb_true_iff; split|].
+  - apply forallb_forall. intros v Hv. unfold obsA in Hv. apply in_map_iff in Hv. destruct Hv as [q [E Hq]]. subst v. rewrite (HvisA q Hq). reflexivity.
+  - apply Nat.leb_le. rewrite app_length. lia.
+  - rewrite !app_length, length_flat_pairs. unfold flags. cbn [length].
+    replace (2 * length sent + (7 + 1) - 8)%nat with (2 * length sent)%nat by lia. rewrite div2_double.
+    rewrite (pairs_flat item (fun x => ack_code (it_ack x)) (fun x => vis dr (it_req x)) sent). cbn [app].
+    assert (Hl1 : loginv_b d' = true) by (apply loginv_b_complete; exact HlogB).
+    assert (Hl2 : consistent_b dr = true) by (apply consistent_b_complete; apply recompute_consistent; exact HlogB).
+    rewrite Hl1, Hl2. cbn [zb Z.eqb Pos.eqb andb]. rewrite !andb_true_r.
+    apply forallb_forall. intros p Hp. apply in_map_iff in Hp. destruct Hp as [x [E Hx]]. subst p. cbn [fst snd].
+    unfold sent in Hx. apply filter_In in Hx. destruct Hx as [Hx Hhas].
+    rewrite Forall_forall in HacksB. destruct (HacksB x Hx) as [Ha1 [Ha2 _]].
+    rewrite (vis_data dr d' _ Hdr). rewrite (Hvis x (in_or_app _ _ _ (or_intror Hx))).
+    assert (Hno : no_ops (it_req x) = false) by (apply negb_true_iff in Hhas; exact Hhas).
+    rewrite Hno, orb_false_r.
+    pose proof (req_ok_item (it_ack x) true (if it_committed x then 1 else 0) (it_committed x) false) as R.
+    rewrite orb_false_r in R. apply R; auto.
+Qed.
+
+Theorem spec_outside_known : forall c,
+  wf_case c = true -> known_C13 c = [] -> spec_C13 c (run_C13 c) = true.
+Proof.
+  intros [|init batches unsent f|init batches script f] Hwf Hk; [reflexivity|apply spec_run_case; assumption|apply spec_restart_case; assumption].
+Qed.
+
+(* for every schedule: a start on a folder whose log keeps the invariant, killed or failing anywhere, leaves rows and
+   deletion log as they were (the start's own writes carry no row of the model), keeps the invariant, and the next
+   start's recompute makes the log consistent *)
+Theorem start_preserves : forall sk sched sc n st lo started,
+  (forall r, In r (script_reqs sc) -> req_ops r = []) -> LogInv (w_disk st) ->
+  let r := run_script sk sched n st lo started sc in
+  data_eq (w_disk (sr_state r)) (w_disk st) /\ LogInv (w_disk (sr_state r)) /\ Consistent (restart (sr_state r)).
+Proof.
+  intros sk sched sc n st lo started Hno Hinv. cbv zeta.
+  assert (Hsok : script_ok sc).
+  { intros b Hb r Hr. apply Hno. unfold script_reqs. apply in_flat_map. exists (SAwait b). split; assumption. }
+  pose proof (script_structure sk sched sc n st lo started Hsok) as H. cbv zeta in H. destruct H as [Hsub Hdata].
+  assert (Hl : LogInv (w_disk (sr_state (run_script sk sched n st lo started sc)))).
+  { apply script_loginv; [|exact Hinv]. intros r Hr o Ho. rewrite (Hno r Hr) in Ho. contradiction. }
+  split; [|split; [exact Hl|unfold restart; apply recompute_consistent; exact Hl]].
+  assert (E : sel_ops sk (sr_items (run_script sk sched n st lo started sc)) = []).
+  { unfold sel_ops. induction (sr_items (run_script sk sched n st lo started sc)) as [|x l IH] in Hsub |- *; [reflexivity|].
+    cbn [flat_map map] in *. assert (Hx : In (it_req x) (script_reqs sc)) by (eapply sublist_in; [exact Hsub|left; reflexivity]).
+    assert (Hl' : sublist (map it_req l) (script_reqs sc)).
+    { clear -Hsub. remember (it_req x :: map it_req l) as l1. induction Hsub; [discriminate|apply sl_skip; auto|].
+      inversion Heql1; subst. apply sl_skip. exact Hsub. }
+    rewrite (IH Hl'). destruct (it_committed x); [|reflexivity].
+    destruct (eff_ops_cases sk (it_req x)) as [E|E]; rewrite E; [rewrite (Hno _ Hx)|]; reflexivity. }
+  rewrite E in Hdata. exact Hdata.
+Qed.
